@@ -40,6 +40,15 @@ def tag_programs(draw):
         items.append(["task", ["tags", inner, vt, jt], {}, {}])
     if draw(st.booleans()):
         items.append(items[0])
+    # job tags given as a task option (definition/call time) must be on EVERY job of that call,
+    # including duplicates served by CSE and cached replays
+    for i in range(draw(st.integers(0, 2))):
+        call = ["task", ["lit", ["int", 40 + i]], {}, {"tags": [["ot", f"o{i}"]]}]
+        if draw(st.booleans()):
+            call[3]["check_valid"] = "shallow"
+        items.append(call)
+        if draw(st.booleans()):
+            items.append(["task", ["task", ["lit", ["int", 40 + i]], {}, {"tags": [["ot", f"p{i}"]]}], {}, {}])   # same call, other parent, other tag
     return ["list", items]
 
 
@@ -218,6 +227,22 @@ def audit(case, backend, runs) -> dict:
                 raise Violation("value-tag-entity", f"value tag tk={t.value} attached to a {t.entity_type}", case)
             if session.get(Value, t.entity_id) is None:
                 raise Violation("value-tag-dangling", f"value tag tk={t.value} points to no Value row", case)
+    # job tags from the `tags` task option: on every finished job that had the option
+    for r in runs:
+        for sj in r.jobs:
+            row = job_rows.get(sj.id)
+            if row is None or sj._status not in ("DONE", "CACHED") or sj.eval_options is None:
+                continue
+            want = [tuple(t) for t in (sj.eval_options.get("tags") or [])]
+            if not want:
+                continue
+            have = {(t.key, t.value) for t in session.query(Tag).filter(Tag.entity_id == sj.id).all()}
+            for jt in want:
+                if jt not in have:
+                    raise Violation(f"option-job-tag-missing:{'cached' if row.cached else 'executed'}",
+                                    f"job {sj.task.fullname} ({sj._status}) was given the job tag {jt} as a task option but does "
+                                    f"not carry it (has {sorted(have)})", case)
+            stats["tags"] += 1
     # converse for the tag family: every non-cached job whose body applies a job tag carries it
     if case["family"] == "tags":
         for r in runs:
